@@ -387,6 +387,11 @@ func (s *Sim) exec(st stepRef) {
 				s.res.Count("fault_corrupt_capture", 1)
 			}
 		}
+		if (op.K == "OpenView" || op.K == "ReadView") && !s.plan.NoOracle {
+			// the same searches at every read of a view (stability), and searches
+			// without a filter must list exactly the view's streams (completeness)
+			op.Def = strings.Join(viewBattery(s.plan), "\x00")
+		}
 		s.or.beforeAPI(op)
 		wf := s.writeFault("api", 0, op.ID)
 		if wf != nil {
@@ -587,4 +592,15 @@ func (s *Sim) runSchedule() {
 	if s.stepNo >= s.plan.MaxSteps && len(s.enabled()) != 0 {
 		s.res.Count("cut_by_step_budget", 1)
 	}
+}
+
+// viewBattery: searches run through held views; they do not mention tags
+// (the tag set changes during a run, the battery of a view must not).
+func viewBattery(p *Plan) []string {
+	b := []string{"sort:ftime", "sort:id", "sort:-ltime,id limit:4", "sport:80,443 sort:id", "data:\"FLAG\" sort:id", "data.none:\"alpha\" sort:id", "protocol:udp sort:id", "cbytes:100: sort:-id"}
+	for _, off := range []int64{10, 75} {
+		t := time.Unix(p.Net.BaseUnix+off, 0).UTC().Format("2006-01-02 150405")
+		b = append(b, fmt.Sprintf("ltime:\"%s:\" sort:id", t), fmt.Sprintf("ftime:\":%s\" sort:id", t))
+	}
+	return b
 }
